@@ -836,6 +836,22 @@ func ruleNewerMemberAlwaysWins(c *eng.Ctx) {
 	}, true)
 	ge := func(v ssa.Value) bool { return eng.LoadNamed("groupEpoch", nil)(v) }
 	notStale := eng.CmpEdges(fn, ge, eng.AnyV, eng.LE)
+	if len(notStale) == 0 {
+		// the comparison is one operand of a named condition (`superseded := ok && existing.groupEpoch > groupEpoch; if
+		// superseded { refuse }`): on the edge that goes on, every way says "no member" or "not newer" — and a path that
+		// started on "member found" cannot have come the first way (the two tests of ok agree)
+		isOK := func(v ssa.Value) bool {
+			e, isE := v.(*ssa.Extract)
+			if !isE || e.Index != 1 {
+				return false
+			}
+			lk, isLk := e.Tuple.(*ssa.Lookup)
+			return isLk && lk.CommaOk && eng.Load(consumers, nil)(lk.X)
+		}
+		notStale = eng.EdgesWhere(fn, func(a eng.AtomView) bool {
+			return a.RelHolds(ge, eng.AnyV, eng.LE) || (!a.Cmp && !a.Pol && a.Val != nil && isOK(a.Val))
+		})
+	}
 	if len(found) == 0 || len(notStale) == 0 {
 		c.Unresolved("the member lookup / epoch comparison of partition.Subscribe")
 		return
@@ -848,6 +864,14 @@ func ruleNewerMemberAlwaysWins(c *eng.Ctx) {
 		for _, n := range notStale {
 			if n == e {
 				already = true
+			}
+		}
+		// a second test of "member found" that lies behind the comparison has the comparison behind it, too
+		if !already {
+			e := e
+			q0 := &eng.PathQuery{Fn: fn, FromEntry: true, CutEdges: notStale, TargetEdge: func(x eng.Edge) bool { return x == e }}
+			if q0.Find() == nil {
+				already = true // no way to this edge that has not crossed the comparison
 			}
 		}
 		if !already {
